@@ -661,4 +661,27 @@ Section G.
   Theorem plist_spelled : forall l rest L,
     wf_l l -> closer_next rest -> size_l l <= L -> plist L (flat_l l ++ rest) = Ok (erase_l l, rest).
   Proof. intros l rest L Hl Hrest HL. destruct main_s as (_ & M & _). apply M; assumption. Qed.
+
+  (* ---- the number of nodes is bounded by the number of tokens ---- *)
+  Lemma size_bound_s :
+    (forall s, size_s s <= 3 * length (flat_s s)) /\
+    (forall l, size_l l <= 3 * length (flat_l l)) /\
+    (forall m, size_m m <= 3 * length (flat_m m) + 1) /\
+    (forall b, size_b b <= 3 * length (flat_b b) + 1) /\
+    (forall e, size_eis e <= 3 * length (flat_eis e) + 1) /\
+    (forall e, size_el e <= 3 * length (flat_el e) + 1).
+  Proof.
+    destruct (size_bound tk) as (Be & Bp & Bps).
+    apply ss_mutind; intros; cbn [size_s size_l size_m size_b size_eis size_el flat_s flat_l flat_m flat_b flat_eis flat_el];
+      repeat (rewrite app_length || cbn [length]);
+      repeat match goal with
+             | |- context [size ?e] => pose proof (Be e); generalize dependent (size e); intros
+             | |- context [sizep ?e] => pose proof (Bp e); generalize dependent (sizep e); intros
+             | |- context [sizeps ?e] => pose proof (Bps e); generalize dependent (sizeps e); intros
+             end; try lia.
+    (* FOR: the optional BY part *)
+    destruct st as [|bk bw1 be bw2]; cbn [size_by flat_by]; repeat (rewrite app_length || cbn [length]).
+    - lia.
+    - pose proof (Be be). lia.
+  Qed.
 End G.
